@@ -8,7 +8,7 @@ for e in d['findings']:
         rows.append(f"| {e['property']} | {e['status']}{(' `'+e['commit']+'`') if e.get('commit') else ''} | {e['what'].replace('|','/')[:330]} |")
 table=subprocess.run("python3 /verif/seeded/table.py",shell=True,capture_output=True,text=True).stdout
 import glob
-tot=len(glob.glob('/verif/seeded/C*-*')); missed=sum(1 for f in glob.glob('/verif/seeded/C*-*/meta.json') if not json.load(open(f)).get('caught_by'))
+tot=len(glob.glob('/verif/seeded/C*-*')); missed=sum(1 for f in glob.glob('/verif/seeded/C*-*/meta.json') if not json.load(open(f)).get('caught_by')); retired=sum(1 for f in glob.glob('/verif/seeded/C*-*/meta.json') if json.load(open(f)).get('retired'))
 first=sum(1 for f in glob.glob('/verif/seeded/C*-*/meta.json') if json.load(open(f)).get('first_result'))
 s=open('/verif/DESIGN.md').read()
 i=s.index("## 10. Results of round 1")
@@ -38,6 +38,6 @@ in the evidence), the directed scenarios keep reproducing them.
 
 ### 10.2 Independently seeded changes and which check catches them
 
-''' + f"{tot} confirmed changes are kept; {tot-missed} are caught by the quick tier of the property's check, {missed} are currently missed; {first} of the caught ones were missed at first and led to a strengthening of the check (column 'caught by', in parentheses).\n\n" + table + "\n"
+''' + f"{tot} confirmed changes are kept; {retired} of them are retired (later repairs of genuine defects removed their only trigger: with the patch applied the demonstration now passes), {tot-missed-retired} are caught by the quick tier of the property's check, {missed} are currently missed; {first} of the caught ones were missed at first and led to a strengthening of the check (column 'caught by', in parentheses).\n\n" + table + "\n"
 open('/verif/DESIGN.md','w').write(s[:i]+sec)
 print(tot, missed, first)
